@@ -18,7 +18,10 @@ EXPLANATION = (
     "parsed) alike, and emits smooth shorthand only when is_smooth_from(previous) holds, which requires a previous curve "
     "of the same class and the mirrored control. R07.4: every floating conversion in a d() format string carries at least "
     "12 significant digits (the precision of the coordinate format); Point.__str__ prints %.12G. R07.5: str(path), "
-    "Path.d and Subpath.d delegate to svg_d. Not decided: the numeric round-trip tolerance, flag boundaries at exactly "
+    "Path.d and Subpath.d delegate to svg_d. "
+    "The running point is the variable handed to d(); every assignment to it before the loops must be the origin (the reader "
+    "measures a leading relative command from (0,0), not from the first segment's recorded start). "
+    "Not decided: the numeric round-trip tolerance, flag boundaries at exactly "
     "half a turn, arcs whose sweep exceeds a full turn."
 )
 ASSUMPTIONS = [
